@@ -257,3 +257,10 @@ def internals(s):
     """ticks of INTERNAL (bar line / cap) messages of the absolute view, on a private copy"""
     c = clone(s)
     return sorted(m.time for m in c.messages_abs() if m.message_type is MT.INTERNAL)
+
+
+def long_desc(n, p=60, chs=(0, 1, 9), step=5, lens=(3, 4, 5, 6)):
+    """A long, structured, well-formed note list (scale family): n notes, onsets step*i, pitch p + i%5, channels
+    cycling, lengths cycling; one (channel, pitch) recurs every 15 notes (75 ticks at step 5), far beyond its length.
+    Velocities are distinct for n <= 126."""
+    return [(step * i, lens[i % len(lens)], p + (i % 5), chs[i % len(chs)], 1 + (i * 37) % 127) for i in range(n)]
